@@ -5,7 +5,7 @@ from ..facts import Ctx, norm_cmp, exc_name
 from ..symex import show, walk, term_name, bind_call
 from .. import pat as P
 from .c05 import check_roles
-from .c12 import Protocol, MOD
+from .c12 import Protocol, MOD, check_stop_marker
 
 LEVEL = 'other'
 SELF = P.Pat(lambda t: t == ('self',), 'self')
@@ -21,7 +21,7 @@ def drain_facts(cx, pr, rep, cname, handle_pred, what, close_field='_wfp'):
     c = cx.cls(MOD, cname)
     r = cx.model.find_method(MOD, c, '_post_process')
     W = cx.where(r[0], r[2])
-    lv = cx.leaves_of(*r)
+    lv = cx.leaves_dyn(r)
     seen = dict(data=0, stop=0, empty=0)
     for l in lv:
         gets = [e for e in l.effects if e[0] == 'call' and pr.is_inbox_call(e[1], ('get_nowait', 'get'))]
@@ -85,6 +85,7 @@ def check(repo, rep):
     if len(pr.inbox) != 1 or pr.stop is None:
         rep.unknown('worker protocol roles not identified')
         return
+    check_stop_marker(cx, rep, pr)
     W = lambda n: cx.where(MOD, n)
     # ================================================================= stream saver
     sc = cx.cls(MOD, 'StreamSaverWorker')
@@ -99,7 +100,7 @@ def check(repo, rep):
     rd = cx.model.find_method(MOD, sc, 'read')
     nrd = 0
     from ..facts import split_ites
-    for l in split_ites(cx.leaves_of(*rd)):
+    for l in split_ites(cx.leaves_dyn(rd)):
         if l.outcome != 'return':
             continue
         nrd += 1
@@ -133,7 +134,7 @@ def check(repo, rep):
     # ---- S2 _process_message: cache every block once
     pm = cx.model.find_method(MOD, sc, '_process_message')
     pn = ('p', pm[2].args.args[1].arg)
-    for l in cx.leaves_of(*pm):
+    for l in cx.leaves_dyn(pm):
         apps = [e for e in l.effects if e[0] == 'call' and iscacheapp(e[1], pn)]
         pre = [e for e in apps if e[4] == 0]
         rep.ob('writer: every received block is appended to the cache exactly once, unconditionally', len(apps) == 1 and len(pre) == 1, cx.where(pm[0], pm[2]), 'StreamSaverWorker._process_message:append', '%d appends (%d unconditional)' % (len(apps), len(pre)),
@@ -284,7 +285,7 @@ def check(repo, rep):
             isev = lambda t, msg: t[0] == 'call' and t[1] == ('attr', ('self',), wev.name) and t[2] == (('attr', ('sub', msg, ('c', 1)), 'data'),)
             pmj = cx.model.find_method(MOD, jc, '_process_message')
             mp = ('p', pmj[2].args.args[1].arg)
-            for l in cx.leaves_of(*pmj):
+            for l in cx.leaves_dyn(pmj):
                 n_ = sum(1 for e in l.effects if e[0] == 'call' and isev(e[1], mp))
                 rep.ob('joiner: each detection message writes its region\'s data (message[1].data) exactly once', n_ == 1 and not l.conds, cx.where(pmj[0], pmj[2]), 'AudioEventsJoinerWorker._process_message', '%d writes' % n_)
 
@@ -315,7 +316,7 @@ def check(repo, rep):
     pmr = cx.model.find_method(MOD, rc, '_process_message')
     mp = ('p', pmr[2].args.args[1].arg)
     idt, reg = ('sub', mp, ('c', 0)), ('sub', mp, ('c', 1))
-    for l in cx.leaves_of(*pmr):
+    for l in cx.leaves_dyn(pmr):
         fm = [e[1] for e in l.effects if e[0] == 'call' and e[1][0] == 'call' and e[1][1][0] == 'attr' and e[1][1][2] == 'format' and e[1][1][1][0] == 'attr' and e[1][1][1][1] == ('self',) and dict(e[1][3]).get('start') is not None]
         sv = [e[1] for e in l.effects if e[0] == 'call' and e[1][0] == 'call' and e[1][1] == ('attr', reg, 'save')]
         rep.ob('region saver: one file per detection (exactly one save call per message)', len(sv) == 1, cx.where(pmr[0], pmr[2]), 'RegionSaverWorker._process_message:save', '%d save calls' % len(sv))
@@ -329,7 +330,9 @@ def check(repo, rep):
                 rep.ob('region saver: the region is saved under the formatted name with the configured format', sv[0][2][:1] == (fm[0],) and (len(sv[0][2]) < 2 or sv[0][2][1][0] == 'attr'), cx.where(pmr[0], pmr[2]), 'RegionSaverWorker._process_message:save-args', 'save call %s' % show(sv[0])[:120])
         else:
             rep.unknown('RegionSaverWorker: file name formatting not found')
-    check_roles(cx, rep, lambda p: p['where'].startswith('auditok/workers.py') or p['func'] in ('make_silence', 'split_and_join_with_silence', 'initialize_workers'), floor=20)
+    from .c09 import check_guess_format
+    check_guess_format(cx, rep)          # savers and loaders dispatch on the normalised format name
+    check_roles(cx, rep, lambda p: cx.in_module(p['where'], 'workers') or p['func'] in ('make_silence', 'split_and_join_with_silence', 'initialize_workers'), floor=20)
     rep.explanation = ('Protocol facts of the three saving workers decided by path enumeration with the message abstracted to {DATA, STOP, Empty}: saver.read() reads the wrapped reader once, returns that block unchanged, '
                        'and forwards it to the writer exactly once and unconditionally before returning (None -> stop marker); the writer appends every block to the cache once; flush writes b"".join(cache) and empties the '
                        'cache on the same path; shutdown = non-blocking drain until Empty (data cached once, stop marker skipped) then flush then close -- so every block is written exactly once in FIFO order whatever '
